@@ -166,6 +166,7 @@ func runC17(r *Report) {
 	c17Loops(r, lt)
 	c17Deletion(r)
 	c17QueuedPeers(r)
+	c17Replies(r)
 }
 
 // checkChanOp classifies one channel operation under rule R1.
@@ -1072,4 +1073,149 @@ func c17QueuedPeers(r *Report) {
 		}
 	})
 	r.Sentinel("R4.NewPeer", n, 1)
+}
+
+// ---------- R5: every request event is answered ----------
+
+// c17Replies: an event that carries a reply channel Ch is a request somebody is waiting on. In the two handleEvent
+// functions, every path from the entry of such an event's case to a return that lets the loop go on (a nil error)
+// answers it: a send on Ch, close(Ch), Ch (or the event) handed to a function that takes over, or the knowledge that Ch
+// is nil. A path that returns without answering leaves the caller blocked until the torrent (or peer) dies.
+func c17Replies(r *Report) {
+	p := r.P
+	ne := newNilEnv(p)
+	n := 0
+	for _, hn := range [][2]string{{"tor", "handleEvent"}, {"peer", "handleEvent"}} {
+		he := p.Func(hn[0], hn[1])
+		if !r.Anchor("R5", hn[0]+"."+hn[1], he != nil) {
+			continue
+		}
+		r.Fn(he)
+		allInstrs(he, func(in ssa.Instruction) {
+			ta, ok := in.(*ssa.TypeAssert)
+			if !ok || !ta.CommaOk {
+				return
+			}
+			st, ok := ta.AssertedType.Underlying().(*types.Struct)
+			if !ok {
+				return
+			}
+			chIdx := -1
+			for i := 0; i < st.NumFields(); i++ {
+				if st.Field(i).Name() == "Ch" {
+					if _, isCh := st.Field(i).Type().Underlying().(*types.Chan); isCh {
+						chIdx = i
+					}
+				}
+			}
+			if chIdx < 0 {
+				return
+			}
+			// the value and the case block
+			var val, okv ssa.Value
+			for _, ref := range *ta.Referrers() {
+				if ex, isx := ref.(*ssa.Extract); isx {
+					if ex.Index == 0 {
+						val = ex
+					} else {
+						okv = ex
+					}
+				}
+			}
+			if val == nil || okv == nil {
+				return
+			}
+			var caseB *ssa.BasicBlock
+			for _, ref := range *okv.Referrers() {
+				if iff, isIf := ref.(*ssa.If); isIf {
+					caseB = iff.Block().Succs[0]
+				}
+			}
+			if caseB == nil {
+				return
+			}
+			n++
+			// the event value may live in a local cell (the switch's bound variable)
+			cells := map[ssa.Value]bool{}
+			for _, ref := range *val.Referrers() {
+				if st, isSt := ref.(*ssa.Store); isSt && st.Val == val {
+					if al, isAl := st.Addr.(*ssa.Alloc); isAl {
+						cells[al] = true
+					}
+				}
+			}
+			isVal := func(v ssa.Value) bool {
+				if v == val {
+					return true
+				}
+				if ld, isLd := v.(*ssa.UnOp); isLd && ld.Op == token.MUL && cells[ld.X] {
+					return true
+				}
+				return cells[v]
+			}
+			isCh := func(v ssa.Value) bool {
+				if f, ok := v.(*ssa.Field); ok && isVal(f.X) && f.Field == chIdx {
+					return true
+				}
+				if ld, isLd := v.(*ssa.UnOp); isLd && ld.Op == token.MUL {
+					if fa, isFA := ld.X.(*ssa.FieldAddr); isFA && cells[fa.X] && fa.Field == chIdx {
+						return true
+					}
+				}
+				return false
+			}
+			answered := func(i ssa.Instruction) bool {
+				switch x := i.(type) {
+				case *ssa.Send:
+					return isCh(x.Chan)
+				case *ssa.Select:
+					for _, s2 := range x.States {
+						if s2.Dir == types.SendOnly && isCh(s2.Chan) {
+							return true
+						}
+					}
+				case ssa.CallInstruction:
+					for _, a := range x.Common().Args {
+						if isCh(a) || isVal(a) {
+							return true
+						}
+						if mi, isMI := a.(*ssa.MakeInterface); isMI && isVal(mi.X) {
+							return true
+						}
+					}
+				case *ssa.MakeClosure:
+					for _, b := range x.Bindings {
+						if isCh(b) || isVal(b) {
+							return true
+						}
+					}
+				}
+				return false
+			}
+			chNil := func(cond ssa.Value, pol bool) bool {
+				x, isNil, okn := nilFact(Guard{Cond: cond, Pol: pol})
+				return okn && isNil && isCh(x)
+			}
+			isGoOn := func(i ssa.Instruction) bool {
+				ret, ok := i.(*ssa.Return)
+				if !ok {
+					return false
+				}
+				res := retResults(ret)
+				if len(res) == 0 {
+					return true
+				}
+				e := res[len(res)-1]
+				if isNilConst(e) {
+					return true
+				}
+				return ne.At(e, ret.Block()) != NonNil
+			}
+			miss, reached := pathsMissingAt(caseB, 0, -1, isGoOn, nil, []edgeReq{{Name: "answered", Instr: answered, Match: chNil}}, nil)
+			key := fmt.Sprintf("%s.%s/%s-answered-on-every-path", hn[0], hn[1], typeShort(ta.AssertedType))
+			r.Check(reached == 0 || len(miss) == 0, "R5", key, ta.Pos(), "every path through the case answers on Ch (or hands it on, or knows it is nil) before the loop goes on",
+				"a path through the "+typeShort(ta.AssertedType)+" case returns with a nil error without sending on or closing the event's Ch: the caller of the corresponding API function stays blocked until the owner dies")
+		})
+	}
+	r.Sentinel("R5", n, 10)
 }
